@@ -1,11 +1,28 @@
 // Recorder for the exact entry points (C01 C02 C08 C09, and C03 when built against real oneTBB or
 // the vtbb shim).  For every input graph and every selected algorithm / weight type it runs the
 // unmodified library and writes the observable behaviour  Call ; Emit* ; Return | Crash  as ndjson.
+#include "arena.hpp"
 #include "common.hpp"
+#include <set>
 #include <parmcb/config.hpp>
 #include <parmcb/parmcb.hpp>
 #include <boost/iterator/function_output_iterator.hpp>
 static bool g_no_emit = false;
+static int g_layouts = 1;               // number of memory layouts (address orders of the edge nodes) per graph
+static std::size_t g_node_size = 0;
+
+template<class Graph> std::size_t probe_node_size() {
+    Graph g(2);
+    varena::t_nrec = 0; varena::t_recording = true;
+    auto e = boost::add_edge(0, 1, g).first;
+    varena::t_recording = false;
+    char *prop = (char *) e.get_property();
+    for (int i = 0; i < varena::t_nrec; i++) {
+        char *b = (char *) varena::t_rec_ptr[i];
+        if (prop >= b && prop < b + varena::t_rec_size[i]) return varena::t_rec_size[i];
+    }
+    return 0;
+}
 
 using namespace vh;
 
@@ -15,9 +32,26 @@ struct Runner {
     typedef typename boost::property_map<Graph, boost::edge_weight_t>::const_type WMap;
     typedef typename boost::property_traits<WMap>::value_type W;
 
-    static void run(const InGraph &in, const std::string &algo, const char *wt, long tol, const std::string &meta) {
+    // layout 0 = whatever malloc gives; layout 1 = edge nodes in reverse address order; >= 2 = seeded random order
+    static void run(const InGraph &in, const std::string &algo, const char *wt, long tol, const std::string &meta_in, int layout = 0) {
         Built<Graph> b;
-        build(in, b);
+        std::string meta = meta_in;
+        if (layout == 0) build(in, b);
+        else {
+            size_t m = in.edges.size();
+            std::vector<std::size_t> perm(m);
+            for (size_t i = 0; i < m; i++) perm[i] = (layout == 1) ? m - 1 - i : i;
+            if (layout >= 2) { unsigned long s = (unsigned long) in.id * 2654435761UL + (unsigned long) layout * 40503UL + 7; for (size_t i = m; i > 1; i--) { s ^= s << 13; s ^= s >> 7; s ^= s << 17; std::swap(perm[i - 1], perm[s % i]); } }
+            varena::t_node_size = probe_node_size<Graph>();
+            build(in, b, [&](size_t i) { varena::t_slot = varena::slot_addr(0, perm[i]); varena::t_armed = true; },
+                         [&](size_t) { varena::t_armed = false; varena::t_slot = nullptr; });
+            std::set<Edge> all(b.edge_of.begin(), b.edge_of.end());
+            std::vector<long> realised; for (auto &e : all) realised.push_back(b.idx(e) - 1);
+            std::vector<long> want(m); for (size_t i = 0; i < m; i++) want[i] = (long) i;
+            std::sort(want.begin(), want.end(), [&](long a, long c) { return perm[(size_t) a] < perm[(size_t) c]; });
+            if (realised != want) { emit(J().s("e", "LayoutError").i("id", in.id).str()); return; }
+            meta = meta.empty() ? std::string("{\"layout\":") + std::to_string(layout) + "}" : meta.substr(0, meta.size() - 1) + ",\"layout\":" + std::to_string(layout) + "}";
+        }
 #ifdef VTBB_SHIM
         // all regions of this call run under a seeded random schedule (different per item and algorithm)
         vtbb::ctl().begin_call(); vtbb::ctl().mode = 1; vtbb::ctl().seed = (std::uint64_t) in.id * 2654435761ULL + std::hash<std::string>()(algo);
@@ -67,6 +101,7 @@ int main(int argc, char **argv) {
     long tol = atol(arg_value(argc, argv, "--tol", "0"));
     int per_call_timeout = atoi(arg_value(argc, argv, "--call-timeout", "60"));
     g_no_emit = has_flag(argc, argv, "--no-emit");
+    g_layouts = atoi(arg_value(argc, argv, "--layouts", "1"));
     if (!in || !out) { fprintf(stderr, "usage: h_mcb --in F --out F [--algos a,b] [--types double,int] [--start k]\n"); return 2; }
     g_out = fopen(out, start > 0 ? "a" : "w");
     if (!g_out) { perror("open out"); return 2; }
@@ -79,8 +114,11 @@ int main(int argc, char **argv) {
             alarm(per_call_timeout);
             std::string meta;
             if (!g.extra.empty()) { meta = "{"; for (size_t q = 0; q < g.extra.size(); q++) { auto kv = split(g.extra[q], '='); if (kv.size() == 2) { if (meta.size() > 1) meta += ","; meta += "\"" + kv[0] + "\":" + kv[1]; } } meta += "}"; }
-            if (t == "double") Runner<GraphD>::run(g, a, "double", tol, meta);
-            else if (t == "int" && g.den == 1) Runner<GraphI>::run(g, a, "int", tol, meta);
+            for (int lay = 0; lay < g_layouts; lay++) {
+                if (g.edges.size() > 2000 && lay > 0) break;
+                if (t == "double") Runner<GraphD>::run(g, a, "double", tol, meta, lay);
+                else if (t == "int" && g.den == 1) Runner<GraphI>::run(g, a, "int", tol, meta, lay);
+            }
             alarm(0);
         }
     }
